@@ -86,8 +86,13 @@ def rwout80_cases(rng, n):
         rw = rwgen.random_rw(rng, 'rwo', allow80=True)
         if rng.random() < 0.7:
             rw.rm = sorted(set((rw.rm or []) + [80])); rw.wl = False
+        if rng.random() < 0.4:
+            # a configured Message-Authenticator of the wrong size (F18): must never be signed in place
+            rw.add = (rw.add or []) + [(80, rbytes(rng, rng.choice([0, 1, 2, 15, 17, 16])))]
         cfg.rewrites.append(rw)
         cfg.clients[0].rwout = rw
+        if rng.random() < 0.5:
+            cfg.servers[0].rwout = rw
         now = 1000005
         ops = []
         for i, rcode in enumerate(rng.sample([2, 3, 11, 5], 3)):
